@@ -1315,8 +1315,7 @@ func (s *Server) processSubscribe(cl *Client, pk packets.Packet) error {
 	reasonCodes := make([]byte, len(pk.Filters))
 	for i, sub := range pk.Filters {
 		if code != packets.CodeSuccess {
-			reasonCodes[i] = code.Code // NB 3.9.3 Non-normative 0x91
-			continue
+			reasonCodes[i] = code.Code // NB 3.9.3 Non-normative 0x91 (mapped to 0x80 for MQTT 3 below)
 		} else if !IsValidFilter(sub.Filter, false) {
 			reasonCodes[i] = packets.ErrTopicFilterInvalid.Code
 		} else if sub.NoLocal && IsSharedFilter(sub.Filter) {
